@@ -70,7 +70,7 @@ def tickrange(ctx, R):
             pa = pow10_atom(e)
             exps_atoms.append(pa[1] if pa else None)
         n_leaves = 0
-        for path, leaf in leaves(tree):
+        for path, leaf in leaves(lift(tree)):
             # degenerate branch: span == 0
             if any(ckey(c.tree).startswith("cmp(eq") and taken for c, taken in path):
                 continue
